@@ -722,6 +722,14 @@ func (s *SSEServer) handleNotification(ctx context.Context, notification *JSONRP
 	return nil
 }
 
+// pendingResponse is what SSEServer.responses holds for a server-issued request: the
+// channel its answer is delivered on and the session the request was sent to, so
+// that only an answer posted by that session is accepted.
+type pendingResponse struct {
+	ch        chan *json.RawMessage
+	sessionID string
+}
+
 // handleResponseMessage processes JSON-RPC responses (like roots/list responses).
 func (s *SSEServer) handleResponseMessage(ctx context.Context, rawMessage json.RawMessage, session *sseSession) {
 	var response jsonRPCEnvelope
@@ -747,12 +755,13 @@ func (s *SSEServer) handleResponseMessage(ctx context.Context, rawMessage json.R
 		return
 	}
 
-	// Type assert to the correct channel type.
-	responseChan, ok := responseChanInterface.(chan *json.RawMessage)
-	if !ok {
-		s.logger.Errorf("Invalid response channel type for request ID: %d", requestIDUint)
+	// The entry must be a pending request of the session that posted this answer.
+	pending, ok := responseChanInterface.(pendingResponse)
+	if !ok || pending.sessionID != session.sessionID {
+		s.logger.Errorf("Response for request ID %d does not belong to session %s", requestIDUint, session.sessionID)
 		return
 	}
+	responseChan := pending.ch
 
 	// Prepare response data.
 	var responseMessage *json.RawMessage
@@ -872,7 +881,7 @@ func (s *SSEServer) processRequestAsync(ctx context.Context, request *JSONRPCReq
 
 	// Check if this is a response to our roots/list request.
 	if s.isRootsListResponse(request) {
-		s.handleRootsListResponse(request)
+		s.handleRootsListResponse(request, session)
 		return
 	}
 
@@ -933,7 +942,7 @@ func (s *SSEServer) isRootsListResponse(request *JSONRPCRequest) bool {
 }
 
 // handleRootsListResponse processes responses from clients to our roots/list requests.
-func (s *SSEServer) handleRootsListResponse(request *JSONRPCRequest) {
+func (s *SSEServer) handleRootsListResponse(request *JSONRPCRequest, session *sseSession) {
 	var responseID interface{} = request.ID
 	var responseResult json.RawMessage
 	var responseError json.RawMessage
@@ -985,12 +994,13 @@ func (s *SSEServer) handleRootsListResponse(request *JSONRPCRequest) {
 		return
 	}
 
-	// Type assert to the correct channel type.
-	responseChan, ok := responseChanInterface.(chan *json.RawMessage)
-	if !ok {
-		s.logger.Errorf("Invalid response channel type for request ID: %d", requestIDUint)
+	// The entry must be a pending request of the session that posted this answer.
+	pending, ok := responseChanInterface.(pendingResponse)
+	if !ok || session == nil || pending.sessionID != session.sessionID {
+		s.logger.Errorf("Response for request ID %d does not belong to the posting session", requestIDUint)
 		return
 	}
+	responseChan := pending.ch
 
 	// Handle error response.
 	if len(responseError) > 0 {
@@ -1361,7 +1371,7 @@ func (s *SSEServer) SendRequest(ctx context.Context, sessionID string, request *
 	if s.responses == nil {
 		s.responses = make(map[uint64]interface{})
 	}
-	s.responses[requestIDUint] = resultChan
+	s.responses[requestIDUint] = pendingResponse{ch: resultChan, sessionID: sessionID}
 	s.responsesMu.Unlock()
 
 	// Clean up the response channel when done
